@@ -618,15 +618,15 @@ def classify_multi(fails):
 # the leading part - `$D/f` (the variable is expanded while globbing), subsequence matching `ab/f` ->
 # `a b/fi` (on by default), `~/f` - so a PARENT directory can bring in characters the user never typed.
 DIR_ROUTES = ("envvar", "subsequence", "home")
-DIR_FILES_QUICK = ["fi", "f i"]
-DIR_FILES_THOROUGH = ["fi", "f i", "f'i", "f$i"]
+DIR_FILES_QUICK = ["fi", "f i", "f'i", "f$i"]
+DIR_FILES_THOROUGH = DIR_FILES_QUICK
 _PLAIN = set("abfi")
 
 
 def dir_names(thorough):
     """Directory names with one (thorough: also two) hostile characters before / between / after plain letters."""
     hostile = [c for c in ALPHA1 if c != "a"]
-    out = []
+    out = ["ab"]  # control: a failure that also occurs under a plain parent is not the parent's doing
     for h in hostile:
         out += ["a" + h + "b", h + "ab", "ab" + h]
     if thorough:
@@ -733,6 +733,8 @@ def classify_dir(fails):
         route, d, fl, sc = f["route"], f["dir"], f["file"], sig_class(f["sig"])
         if fl != "fi" and (route, d, "fi", sc) in table:
             fl = "fi"
+        if (route, "ab", fl, sc) in table:
+            d = "ab"
         for cand in _dir_reductions(d):
             if (route, cand, fl, sc) in table:
                 d = cand
